@@ -116,7 +116,45 @@ pub fn run_case(line: &str, dir: &str) -> String {
     match kind {
         "SEQ" => run_seq(rest, dir),
         "IMG" => run_img(rest, dir),
+        "DUMPDIR" => {
+            // the standalone Dump (takes the directory lock, lists the directory) on an image
+            use raft_log::DumpApi;
+            let files = rest.rsplit('|').next().unwrap_or("");
+            let _ = std::fs::remove_dir_all(dir);
+            std::fs::create_dir_all(dir).unwrap();
+            for f in files.split_whitespace() {
+                let (id, data) = f.split_once(':').unwrap();
+                std::fs::write(format!("{}/{}", dir, chunk_file_name(pu(id))), unhex(data)).unwrap();
+            }
+            let cfg = std::sync::Arc::new(make_config(&["100", "100000", "3", "100000", "1", "64"], dir));
+            let mut items: Vec<String> = Vec::new();
+            let r = catch_unwind(AssertUnwindSafe(|| {
+                let d = raft_log::Dump::<HT>::new(cfg)?;
+                d.write_with(|chunk_id, i, res| {
+                    items.push(match res {
+                        Ok((seg, rec)) => format!("{}:{}:{}+{}:{}", chunk_id.0, i, seg.offset().0, seg.size().0, record_str(&rec).replace(' ', "_")),
+                        Err(e) => format!("{}:{}:err:{}", chunk_id.0, i, kind_str(e.kind())),
+                    });
+                    Ok(())
+                })
+            }));
+            match r {
+                Ok(Ok(())) => format!("dump {}", items.join(" ")).trim_end().to_string(),
+                Ok(Err(e)) => format!("dump {} err:{}", items.join(" "), kind_str(e.kind())),
+                Err(_) => "panic".to_string(),
+            }
+        }
         "ENC" => run_enc(rest),
+        "ENCF" => {
+            // an encode into a writer that fails after k bytes, then the encode proper on
+            // the same thread: the result must not depend on the failed attempt
+            let (k, r) = rest.trim().split_once(' ').unwrap_or(("0", ""));
+            let t: Vec<&str> = r.split_whitespace().collect();
+            let rec = parse_record(&t);
+            let mut w = FailAfter { left: pu(k) as usize };
+            let _ = catch_unwind(AssertUnwindSafe(|| raft_log::codeq::Encode::encode(&rec, &mut w)));
+            run_enc(r)
+        }
         "DEC" => run_dec(rest),
         "NAME" => {
             let cfg = raft_log::Config::new("d");
@@ -142,6 +180,23 @@ pub fn run_case(line: &str, dir: &str) -> String {
             }
         }
         _ => "badcase".to_string(),
+    }
+}
+
+struct FailAfter {
+    left: usize,
+}
+impl std::io::Write for FailAfter {
+    fn write(&mut self, buf: &[u8]) -> std::io::Result<usize> {
+        if self.left == 0 {
+            return Err(std::io::Error::new(std::io::ErrorKind::Other, "injected"));
+        }
+        let n = buf.len().min(self.left);
+        self.left -= n;
+        Ok(n)
+    }
+    fn flush(&mut self) -> std::io::Result<()> {
+        Ok(())
     }
 }
 
